@@ -1284,6 +1284,7 @@ func (t *irT) assigned(b []ast.Stmt, outer *irEnv, set map[string]bool) {
 				add(k)
 			}
 		case *ast.ExprStmt:
+			effects(x.X) // an irEffCall used as a statement (resil)
 			if ce, ok := x.X.(*ast.CallExpr); ok {
 				ng := len(t.guards)
 				sc, args, err := t.stmtCall(ce, outer)
@@ -1773,6 +1774,14 @@ func (t *irT) stmtCore(s ast.Stmt, env *irEnv, ind string, next irNext) (string,
 		ce, ok := x.X.(*ast.CallExpr)
 		if !ok {
 			break
+		}
+		if _, _, isEff := t.effCall(ce, env); isEff {
+			// an effectful call (irEffCall) used as a statement: its value is dropped, its lets and its
+			// guard are emitted by the wrappers in stmt (resil)
+			if _, err := t.call(ce, env); err != nil {
+				return "", err
+			}
+			return next(env, ind)
 		}
 		sc, args, err := t.stmtCall(ce, env)
 		if err != nil {
